@@ -360,6 +360,9 @@ def build_jobs(ctx, budget):
             ops = ["F", "P"] + ["c%d" % n for n in chunks] + ["z"]
             if r.random() < 0.15:  # dtype clause
                 d = r.choice([16, 32, 32, 1])
+                amp = 3 * max(sum(abs(complex(*t)) for t in taps) for _, taps in case0["filters"])
+                if d == 16 and (amp ** 2 if case0["power"] else amp) * sum(case0["window"]) >= 60000:
+                    d = 32  # would overflow float16
                 case["x"] = [max(-3, min(3, v)) for v in case["x"]] if d == 16 else case["x"]
                 ops = ["d%d" % d, "F"] + (["c%d" % n for n in chunks] + ["z"] if d != 1 else [])
                 if d != 1 and r.random() < 0.3 and chunks:
@@ -569,7 +572,7 @@ def library_oracle(ctx, n):
 
     r = ctx.rng
     rate = 8000
-    wins = {"hann": filters.HannWindow, "hamming": filters.HammingWindow, "rect": filters.RectangularWindow,
+    wins = {"hann": filters.HannWindow, "hamming": filters.HammingWindow,
             "gamma": filters.GammaWindow, "bartlett": filters.BartlettWindow, "blackman": filters.BlackmanWindow}
     done = 0
     tries = 0
